@@ -42,6 +42,7 @@ def jobs(tier):
     add("BBS", "B", schedule={"2020": "fifo", "2021": "hifo"}, years=(2020, 2021))
     add("BS", "B", schedule={"2019": "hifo"}, config_schedule=True)  # [accounting_methods] section with a single year
     add("BBS", "B", uid="same")
+    add("BII", "B")  # two income events of one type, free to share their instant: adjacent rows of the detail table
     add("BBB", "B", accounts="abc")  # accounts X1/H1, X1/H2, X2/H1: one holder's accounts are not adjacent in exchange order  # partial fills sharing one order id: several transactions of one asset with the same unique id
     if tier == "thorough":
         add("BBS", "B", filt="from", method="lifo")
@@ -449,9 +450,9 @@ def check_summary(S, rec, cds, first_rows):
             link = reportlib.parse_link(cell)
             target = first_rows[asset].get(y.year)
             if target is None:
-                # no detail row of that year is shown (date filter): nothing to point at; a link, if any, must stay inside the asset's sheet
-                if link is not None:
-                    S.expect(link[0] == tr("{} Tax").format(asset), "C19", "summary-link-sheet", what)
+                # no detail row of that year is shown (date filter): there is no row describing this line, so any link leads
+                # to a row about something else
+                S.expect(link is None, "C19", "summary-link-dangling", "%s links to %s although no gain/loss row of that year is shown" % (what, link[:2] if link is not None else None))
             else:
                 S.expect(link is not None, "C19", "summary-link-missing", what)
                 S.expect(link[0] == tr("{} Tax").format(asset), "C19", "summary-link-sheet", "%s links to %r" % (what, link[0]))
